@@ -236,9 +236,14 @@ def tlc_sim(module, cfg, wdir, num, depth, seed, timeout=300):
     return {"behaviours": behs, "wall_s": dt, "violated": violated, "out": out}
 
 
-def tlc_trace(module, cfg_in, consts, trace, wdir, timeout=1800, extra_modules=(), workers=1):
-    """Validate one ndjson trace file.  Returns dict(viol=[...], drift=[...], accepted, states)."""
+def tlc_trace(module, cfg_in, consts, trace, wdir, timeout=1800, extra_modules=(), workers=1, split=1):
+    """Validate one ndjson trace file.  Returns dict(viol=[...], drift=[...], accepted, states).
+    split=K > 1: the file holds many independent traces (each begins with an Init/Reset line); they are
+    dealt into K chunk files validated by K TLC processes in parallel, and the line numbers of the
+    reported VIOL/DRIFT tuples are mapped back to the lines of the original file."""
     os.makedirs(wdir, exist_ok=True)
+    if split > 1:
+        return _tlc_trace_split(module, cfg_in, consts, trace, wdir, timeout, workers, split)
     with open(os.path.join(SPEC, cfg_in)) as f:
         cfg = f.read()
     for k, v in consts.items():
@@ -268,6 +273,65 @@ def tlc_trace(module, cfg_in, consts, trace, wdir, timeout=1800, extra_modules=(
         raise ToolError(f"trace validation did not complete ({module}):\n" + out[-4000:])
     return {"viol": viol, "drift": drift, "notes": notes, "accepted": accepted,
             "states": int(sm.group(2)), "wall_s": dt, "out": out}
+
+
+def _tlc_trace_split(module, cfg_in, consts, trace, wdir, timeout, workers, split):
+    import concurrent.futures
+    with open(trace) as f:
+        lines = [x for x in f if x.strip()]
+    starts = [i for i, x in enumerate(lines) if re.match(r'\s*\{.*"ev"\s*:\s*"(Init|Reset)"', x)
+              and json.loads(x).get("ev") in ("Init", "Reset")]
+    if not starts or starts[0] != 0:
+        raise ToolError("trace does not begin with an Init line: " + trace)
+    bounds = starts + [len(lines)]
+    traces = [(bounds[i], bounds[i + 1]) for i in range(len(starts))]
+    k = max(1, min(split, len(traces)))
+    # contiguous groups of traces with about the same number of lines
+    per = len(lines) / k
+    groups, cur, acc = [], [], 0
+    for (a, b) in traces:
+        cur.append((a, b))
+        acc += b - a
+        if acc >= per * (len(groups) + 1) and len(groups) < k - 1:
+            groups.append(cur)
+            cur = []
+    if cur:
+        groups.append(cur)
+    jobs = []
+    for gi, g in enumerate(groups):
+        cdir = os.path.join(wdir, f"chunk{gi}")
+        os.makedirs(cdir, exist_ok=True)
+        cpath = os.path.join(cdir, "trace.ndjson")
+        lo = g[0][0]
+        with open(cpath, "w") as f:
+            for j in range(g[0][0], g[-1][1]):
+                x = lines[j]
+                if j == lo:
+                    r = json.loads(x)
+                    r["ev"] = "Init"
+                    x = json.dumps(r) + "\n"
+                f.write(x)
+        jobs.append((cdir, cpath, lo))
+    t0 = time.time()
+    res = {"viol": [], "drift": [], "notes": [], "accepted": True, "states": 0, "out": ""}
+    with concurrent.futures.ThreadPoolExecutor(max_workers=k) as ex:
+        futs = [(lo, ex.submit(tlc_trace, module, cfg_in, consts, cpath, cdir, timeout, (), workers, 1))
+                for (cdir, cpath, lo) in jobs]
+        for lo, fu in futs:
+            r = fu.result()
+            for key, pos in (("viol", 2), ("drift", 1)):
+                for fields in r[key]:
+                    if len(fields) > pos and fields[pos].isdigit():
+                        fields[pos] = str(int(fields[pos]) + lo)
+                    res[key].append(fields)
+            res["notes"] += r["notes"]
+            res["states"] += r["states"]
+            res["out"] += r["out"][-2000:]
+    for (cdir, _, _) in jobs:
+        shutil.rmtree(cdir, ignore_errors=True)
+    res["wall_s"] = time.time() - t0
+    res["chunks"] = len(jobs)
+    return res
 
 
 # --------------------------------------------------------------------------------------------
